@@ -569,6 +569,7 @@ class ShortTimeFourierTransformFrameComputer(LinearFilterBankFrameComputer):
         self._buf_len = 0
         self._started = False
         self._first_frame = True
+        self._chunk_dtype = np.float64
         return coeffs
 
     def compute_full(self, signal: np.ndarray) -> np.ndarray:
@@ -844,6 +845,7 @@ class ShortIntegrationFrameComputer(LinearFilterBankFrameComputer):
                     :num_frames
                 ]
         self._started = False
+        self._ret_dtype = np.float64
         return coeffs
 
     def compute_full(self, signal: np.ndarray) -> np.ndarray:
